@@ -68,6 +68,18 @@ pub fn o_unknown(input: &[u8], p: &P) -> Out {
 			return Err(("QUIRK".to_string(), format!("the doubled Game End is no longer recognised (quirks {:?} instead of {:?}) when an unknown event follows the first Game End; the game would be written back with a single Game End", g.quirks, g0.quirks)));
 		}
 		compare_frames(&g.frames, &rg, rg.rows.len(), true).map_err(|(k, m)| e(&format!("model-{}", k), m))?;
+		// the skip_frames path walks over the unknown events as raw bytes: same start / end / metadata
+		if g0.end.is_some() && rg.junk_after_end == 0 {
+			let s0 = read_slp(&base, true, true).map_err(|f| e("base-skip-read-failed", f.describe()))?;
+			let s1 = read_slp(input, true, true).map_err(|f| e(&format!("skip-read-failed:{}", f.key()), format!("skip_frames read fails with unknown events present: {}", f.describe())))?;
+			start_eq(&s0.start, &s1.start, true).map_err(|m| e("skip-start-differs", m))?;
+			if s0.end != s1.end || s0.metadata != s1.metadata {
+				return Err(e("skip-differs", "skip_frames gives a different end/metadata when unknown events are present".into()));
+			}
+			if s1.hash.as_deref() != Some(crate::checks::c02::expected_hash(&input[..rg.consumed]).as_str()) {
+				return Err(e("skip-hash", "hash with skip_frames is not the digest of the file with its unknown events".into()));
+			}
+		}
 		Ok(fnv_mix(rg.unknown_events as u64, g.frames.len() as u64))
 	});
 	match r {
